@@ -12,7 +12,7 @@
      `tokensWithPos`.
 -/
 import CedarGo.Model.Text.Token
-namespace CedarGo.Text
+namespace CedarGo.Text.Lx
 
 abbrev Rune := Int
 
@@ -357,4 +357,4 @@ def RawTok.toToken (t : RawTok) : Token := âŸ¨t.ty, t.pos, bytesToString t.textâ
 def tokensWithPos (doc : List UInt8) : Except LexErr (List Token) :=
   (rawTokens doc).map (Â·.map RawTok.toToken)
 
-end CedarGo.Text
+end CedarGo.Text.Lx
